@@ -245,6 +245,8 @@ type mdOp struct {
 	// is, not as a copy made for this one call. Want is what the application put into it.
 	Live bool
 	Want metadata.MD
+	// Then (part mutate, mutate.go): what the handler does right after this hand-over returned
+	Then func()
 }
 
 func mdOf(m []KV) metadata.MD {
